@@ -755,7 +755,18 @@ where
 {
     let file = log::open(utils::hintfile_name(&path, fileid))?;
     let mut hintfile_iter = LogIterator::new(file)?;
+    // A hint file that was not fully written before a failure can point to data that never
+    // reached the data file. Only trust it if every entry lies within the data file, otherwise
+    // report it as missing so the data file gets scanned instead.
+    let datafile_len = fs::metadata(utils::datafile_name(&path, fileid))?.len();
+    let mut entries = Vec::new();
     while let Some((_, entry)) = hintfile_iter.next::<HintFileEntry>()? {
+        if entry.pos.saturating_add(entry.len) > datafile_len {
+            return Err(io::Error::from(io::ErrorKind::NotFound).into());
+        }
+        entries.push(entry);
+    }
+    for entry in entries {
         let keydir_entry = KeyDirEntry {
             fileid,
             len: entry.len,
